@@ -174,6 +174,10 @@ def run(tier):
         for c in cases:
             V.count()
             r = res.get(c["id"], {})
+            if "panic" in r:
+                V.violation("a run of the history panicked: %s [history %s]" % (json.dumps(r["panic"])[:300], c["id"]),
+                            {"kind": "history", "prop": PROP, "case": c}, {"what": "rate look-up panicked"})
+                continue
             if "runs" not in r:
                 V.unjudged += 1
                 continue
